@@ -14,6 +14,8 @@ Python ↔ Lean
 * `led__predicate` _xpath1_operators.py:398-402, `led__parenthesized_expression` _xpath30_operators.py:71-91 ↔ `Led.bracket`
 * `nud__parenthesized_expr(ession)` _xpath1_operators.py:426-430, _xpath2_operators.py:449-454 ↔ `Nud.group`
 * `LookupOperatorToken.led` _xpath31_operators.py:156-166 ↔ `Led.infix 85 … rhs`
+* `led__arrow_operator` _xpath31_operators.py:235-263 ↔ `Led.arrow 80 67 start g` (the function-token branches,
+  which take the next token without parsing it, concern names outside the operand alphabet)
 * `Token.nud/led` defaults raise `wrong_syntax` tdop.py:255-262 ↔ `Led.none`/`Nud.none` → `Err.syntax`
 Core Lean only.
 -/
@@ -32,6 +34,9 @@ inductive Led where
   | typed (deny : List Nat)
   /-- `self[:] = left, expression(0) (or nothing if emptyOk and the closer follows); advance(close)` -/
   | bracket (close : Nat) (emptyOk : Bool) (deny : List Nat)
+  /-- `[next token must start with a code in start]; self[:] = left, expression(srbp); right = expression(arbp);
+      right.expected('(')  -- symbol `g`; self.append(right)`  (`led__arrow_operator`) -/
+  | arrow (srbp arbp : Nat) (start : List Nat) (g : Nat)
   /-- a `led` that the model does not describe (`:` `#` `=>` …): using it is outside the fragment -/
   | other
   deriving Repr, DecidableEq, Inhabited
@@ -139,6 +144,16 @@ def loop (T : Tbl) : Nat → Nat → Tree → List Tok → Except Err (Tree × L
               if c' == c then loop T f rbp (.post o c left e) rest' else .error .syntax
             | .ok _ => .error .syntax
             | .error e => .error e
+      | .arrow sr ar start g =>
+        if !rhsOk start rest then .error .syntax
+        else
+          match expr T f sr rest with
+          | .ok (s, rest1) =>
+            match expr T f ar rest1 with
+            | .ok (a, rest2) =>
+              if a.head == 2 * g + 1 then loop T f rbp (.arrow o left s a) rest2 else .error .syntax
+            | .error e => .error e
+          | .error e => .error e
       | .none => .error .syntax
       | .other => .error .unmodelled
     else .ok (left, .op o :: rest)
